@@ -391,6 +391,17 @@ fn exec_f<F: Fld>(t: &[&str]) -> Outcome {
             let r = x.exp_u(p(e));
             check_elem(Outcome::ok(elem(&r)), "exp", &r, powmod(va, p(e), m))
         },
+        // FieldElement::exp_vartime: the trait's default ladder (math/src/field/traits.rs), which the base fields
+        // inherit next to their own `exp`; same mathematical function, so the model line is the model's exp
+        ["expv", a, e] | ["rexpv", a, e] => {
+            let raw = t[0] == "rexpv";
+            let x = if raw { F::from_raw_word(p(a)) } else { F::from_word(p(a)) };
+            let va = if raw { raw_val::<F>(p(a)) } else { p(a) % m };
+            let r = x.expv_u(p(e));
+            // only the residue is compared with the model (the default ladder and the field's own `exp` may leave
+            // different internal words of the same residue); the oracle still checks the representation invariant
+            check_elem(Outcome::ok(format!("{}", r.canon())), "exp_vartime", &r, powmod(va, p(e), m))
+        },
         ["mulsmall", a, k] => {
             if F::NAME != "f64" {
                 return Outcome::ok("bad-op");
@@ -700,6 +711,7 @@ fn gen_f<F: Fld>(rng: &mut Rng, n: usize, emit: &mut dyn FnMut(String)) {
         for e in [0u128, 1, 2, 3, m - 1, m - 2, m, (1 << 63) + 1] {
             let e = if bits == 64 { e & 0xFFFFFFFFFFFFFFFF } else { e };
             emit(format!("{} rexp {} {}", f, a, e));
+            emit(format!("{} rexpv {} {}", f, a, e));
         }
     }
     // exponent boundaries: every power of two and its neighbours (loop bounds, fast paths and
@@ -725,6 +737,7 @@ fn gen_f<F: Fld>(rng: &mut Rng, n: usize, emit: &mut dyn FnMut(String)) {
         for e in &exps {
             let e = if bits == 64 { e & 0xFFFFFFFFFFFFFFFF } else { *e };
             emit(format!("{} rexp {} {}", f, a, e));
+            emit(format!("{} rexpv {} {}", f, a, e));
         }
     }
     for a in &bnd {
@@ -754,7 +767,9 @@ fn gen_f<F: Fld>(rng: &mut Rng, n: usize, emit: &mut dyn FnMut(String)) {
             },
             5 => {
                 let e = if rng.chance(1, 3) { rng.below(64) as u128 } else { rnd(rng) };
-                emit(format!("{} rexp {} {}", f, pickr(rng), e))
+                let base = pickr(rng);
+                emit(format!("{} rexpv {} {}", f, base, e));
+                emit(format!("{} rexp {} {}", f, base, e))
             },
             6 => {
                 if f == "f64" {
